@@ -109,11 +109,10 @@ def handleTrace (toks : List String) : String :=
     r.getD "BADOP"
   | _ => "BADOP"
 
-def handle (line : String) : String :=
-  match (line.trimAscii.toString.splitOn " ").filter (· != "") with
-  | [] => ""
-  | "CASE" :: id :: _ => s!"CASE {id}"
-  | "TRACE" :: rest => handleTrace rest
-  | _ => "UNSUPPORTED"
+/-- handler of this module: `none` = not my operation -/
+def handle? (toks : List String) : Option String :=
+  match toks with
+  | "TRACE" :: rest => some (handleTrace rest)
+  | _ => none
 
 end Lou.Proto
